@@ -1,135 +1,91 @@
 (** C12 -- Auto-responses depend on the output text, not on how it was chunked.
     Statements only; proofs are in Proofs/C12_regex.v and Proofs/C12_watch.v.
 
-    [current]  = the code in /repo as it stands (Model/WatchModel.v), which does NOT
-                 have the property: F-C12a (index := end of the read) and F-C12b
-                 ([tried] latches on the first submit).  For it: [_refuted] witnesses
-                 and [_partial] theorems under boolean guards.
-    [repaired] = the candidate two-line patch (index := end of the last match; the
-                 response list is materialised before its truthiness is tested):
-                 [C12_repaired_*] are the full-strength statements, proved for
-                 [submit_fixed = submit repaired].  They say nothing about /repo
-                 until the patch is applied and Corr/C12Corr.v's [impl_variant] is
-                 switched.
-    Pattern family: non-empty fixed-length sequences of character classes. *)
+    [current] (Model/WatchModel.v) is the code in /repo: [Responder.pattern_matches]
+    moves its index to the end of the last match (fix 28f435d) and
+    [FailingResponder.submit] materialises the response list before testing it
+    (fix 380f659).  For it the property holds at full strength on the pattern
+    family (non-empty fixed-length sequences of character classes).
+    The last section keeps, for the record, the witnesses that the code BEFORE
+    those fixes ([before_fix]) did not have the property. *)
 From InvokeVerif Require Import Model.WatchModel Spec.C12Spec Proofs.C12_regex Proofs.C12_watch.
 
-(** The full statements, for a variant [v] of the code. *)
-Definition C12_chunk_independent_statement (v : variant) : Prop :=
-  forall (p : pattern) (r : string) (chunks : list text),
-    total (fst (feed_stream v [WResp p r] chunks)) = occ p (List.concat chunks).
-
-Definition C12_failing_sentinel_statement (v : variant) : Prop :=
-  forall (p : pattern) (r : string) (s : pattern) (chunks : list text),
-    snd (feed_stream v [WFail p r s] chunks) = must_raise p s [] false chunks.
-
-Definition C12_meets_spec_statement (v : variant) : Prop :=
-  forall (ws : list watcher) (sched : list event) (how : via),
-    spec_ok ws sched how (fst (run v ws sched)) (snd (run v ws sched))
-            (outcome_exn how (snd (run v ws sched))) = true.
-
-(** ** The code as it stands *)
-
-(** Flagship (partial): any watchers, any schedule of reads over the two threads --
-    inside the guard (no occurrence straddles the end of a read in which an
-    occurrence was completed; no sentinel completed in a non-first read before the
-    watcher has answered) what the model of the present code writes and raises is
-    accepted by the executable specification.  Missing: everything outside the
-    guard, where the statement is false (next two theorems). *)
-Theorem C12_run_meets_spec_partial : forall ws sched how,
-  guard false false ws sched = true ->
+(** Flagship: any watchers, any schedule of reads over the two IO threads, however
+    driven -- what the model writes to the child's stdin read by read, which threads
+    die and what the call raises is accepted by the executable specification. *)
+Theorem C12_run_meets_spec : forall ws sched how,
   spec_ok ws sched how (fst (run current ws sched)) (snd (run current ws sched))
           (outcome_exn how (snd (run current ws sched))) = true.
-Proof. exact current_meets_spec_in_guard. Qed.
+Proof. exact current_meets_spec. Qed.
 
-(** F-C12a: "abab" delivered as "aba" | "b" is answered once. *)
-Theorem C12_chunk_independent_refuted_straddle :
-  exists p r chunks, nonempty p = true /\
-    total (fst (feed_stream current [WResp p r] chunks)) <> occ p (List.concat chunks).
-Proof. exact current_refuted_straddle. Qed.
-
-Theorem C12_chunk_independent_partial : forall p r chunks,
-  no_straddle_after_match p [] chunks = true ->
+(** For every text and every way of splitting it into reads, a Responder answers
+    exactly the non-overlapping occurrences of its pattern in the whole text. *)
+Theorem C12_chunk_independent : forall (p : pattern) (r : string) (chunks : list text),
   total (fst (feed_stream current [WResp p r] chunks)) = occ p (List.concat chunks).
-Proof. exact current_chunk_independent_partial. Qed.
+Proof. exact current_chunk_independent. Qed.
 
-(** F-C12b: "xx " | "Sorry" raises although nothing was ever answered (and the same
-    text in one read does not raise). *)
-Theorem C12_failing_sentinel_refuted_tried :
-  exists p r s chunks, nonempty p = true /\ nonempty s = true /\
-    occ p (List.concat chunks) = 0 /\
-    total (fst (feed_stream current [WFail p r s] chunks)) = 0 /\
-    snd (feed_stream current [WFail p r s] chunks) = true /\
-    must_raise p s [] false chunks = false /\
-    snd (feed_stream current [WFail p r s] [List.concat chunks]) = false.
-Proof. exact current_refuted_tried. Qed.
+Theorem C12_same_text : forall p r chunks1 chunks2,
+  List.concat chunks1 = List.concat chunks2 ->
+  total (fst (feed_stream current [WResp p r] chunks1)) =
+  total (fst (feed_stream current [WResp p r] chunks2)).
+Proof. exact current_same_text. Qed.
 
-Theorem C12_failing_sentinel_partial : forall p r s chunks,
-  failing_region p r s chunks = true ->
+(** A FailingResponder raises iff some read completes an occurrence of the sentinel
+    after a response was sent in an earlier read. *)
+Theorem C12_failing_sentinel : forall p r s chunks,
   snd (feed_stream current [WFail p r s] chunks) = must_raise p s [] false chunks.
-Proof. exact current_failing_sentinel_partial. Qed.
+Proof. exact current_failing_sentinel. Qed.
 
-(** Full strength on the present code: no raise when no sentinel occurs in the
-    stream's text (any watchers, any chunking, either variant). *)
-Theorem C12_never_raises_without_sentinel : forall v ws chunks,
+(** No raise when no sentinel occurs in the stream's text (any watchers, any chunking). *)
+Theorem C12_never_raises_without_sentinel : forall ws chunks,
   (forall p r s, In (WFail p r s) ws -> occ s (List.concat chunks) = 0) ->
-  snd (feed_stream v ws chunks) = false.
+  snd (feed_stream current ws chunks) = false.
 Proof.
-  intros v ws chunks H. apply never_raises_without_sentinel; [reflexivity | exact H].
+  intros ws chunks H. apply never_raises_without_sentinel; [reflexivity | exact H].
 Qed.
 
-(** Full strength on the present code: separate positions per stream -- under every
-    interleaving of the reads of the two threads, each thread writes and dies
-    exactly as if it were fed its own reads alone. *)
-Theorem C12_streams_independent : forall v ws sched,
-  proj false sched (fst (run v ws sched)) = fst (feed_stream v ws (chunks_of false sched)) /\
-  fst (snd (run v ws sched)) = snd (feed_stream v ws (chunks_of false sched)) /\
-  proj true sched (fst (run v ws sched)) = fst (feed_stream v ws (chunks_of true sched)) /\
-  snd (snd (run v ws sched)) = snd (feed_stream v ws (chunks_of true sched)).
-Proof. exact streams_independent. Qed.
+(** Separate positions per stream: under every interleaving of the reads of the two
+    threads, each thread writes and dies exactly as if it were fed its own reads alone. *)
+Theorem C12_streams_independent : forall ws sched,
+  proj false sched (fst (run current ws sched)) = fst (feed_stream current ws (chunks_of false sched)) /\
+  fst (snd (run current ws sched)) = snd (feed_stream current ws (chunks_of false sched)) /\
+  proj true sched (fst (run current ws sched)) = fst (feed_stream current ws (chunks_of true sched)) /\
+  snd (snd (run current ws sched)) = snd (feed_stream current ws (chunks_of true sched)).
+Proof. exact (streams_independent current). Qed.
 
-(** ** The repaired variant ([submit_fixed]): the property at full strength *)
-Theorem C12_repaired_run_meets_spec : C12_meets_spec_statement repaired.
-Proof. exact repaired_meets_spec. Qed.
-
-Theorem C12_repaired_chunk_independent : C12_chunk_independent_statement repaired.
-Proof. exact repaired_chunk_independent. Qed.
-
-Theorem C12_repaired_same_text : forall p r chunks1 chunks2,
-  List.concat chunks1 = List.concat chunks2 ->
-  total (fst (feed_stream repaired [WResp p r] chunks1)) =
-  total (fst (feed_stream repaired [WResp p r] chunks2)).
-Proof. exact repaired_same_text. Qed.
-
-Theorem C12_repaired_failing_sentinel : C12_failing_sentinel_statement repaired.
-Proof. exact repaired_failing_sentinel. Qed.
-
-(** Non-vacuity: a two-thread schedule with a Responder and a FailingResponder that
-    lies inside the guard, answers several times and ends in a legitimate raise. *)
-Example C12_example_in_guard :
-  let ws := [WResp (lit "ab") "y"; WFail (lit "a") "p" (lit "b")] in
-  let sched := [(false, "ab"); (true, "xa"); (false, "ab"); (true, "xb")] in
-  guard false false ws sched = true /\
-  run current ws sched = ([["y"; "p"]; ["p"]; ["y"]; []], (true, true)).
+(** Non-vacuity: a two-thread schedule with a Responder and a FailingResponder,
+    occurrences split across reads and straddling read boundaries after a match,
+    several answers, one legitimate raise, one stream with a sentinel but no earlier
+    answer (no raise). *)
+Example C12_example_schedule :
+  let ws := [WResp (lit "ab") "y"; WFail (lit "a") "p" (lit "x")] in
+  let sched := [(false, "aba"); (true, "x"); (false, "b"); (true, "xb"); (false, "x")] in
+  run current ws sched = ([["y"; "p"; "p"]; []; ["y"]; []; []], (true, false)) /\
+  occ (lit "ab") (chars "ababx") = 2.
 Proof. vm_compute. split; reflexivity. Qed.
 
-(** ... and the guards of the single-watcher corollaries hold on chunkings that do
-    split occurrences across reads. *)
-Example C12_example_split_prompt :
-  no_straddle_after_match (lit "ab") [] [chars "a"; chars "b"; chars "a"; chars "b"] = true /\
-  total (fst (feed_stream current [WResp (lit "ab") "y"] [chars "a"; chars "b"; chars "a"; chars "b"])) = 2 /\
-  failing_region (lit "pw") "x" (lit "No") [chars "p"; chars "w"; chars "N"; chars "o"] = true /\
-  snd (feed_stream current [WFail (lit "pw") "x" (lit "No")] [chars "p"; chars "w"; chars "N"; chars "o"]) = true.
+Example C12_example_straddle_answered :
+  total (fst (feed_stream current [WResp (lit "ab") "y"] [chars "aba"; chars "b"])) = 2 /\
+  snd (feed_stream current [WFail (lit "pw") "y" (lit "Sorry")] [chars "xx "; chars "Sorry"]) = false /\
+  snd (feed_stream current [WFail (lit "pw") "y" (lit "No")] [chars "p"; chars "w"; chars "N"; chars "o"]) = true.
 Proof. vm_compute. repeat split; reflexivity. Qed.
 
-(** The full statements are false of the code as it stands. *)
-Theorem C12_chunk_independent_refuted : ~ C12_chunk_independent_statement current.
-Proof.
-  intros H. destruct current_refuted_straddle as (p & r & chunks & _ & N). apply N, H.
-Qed.
+(** * Historical record -- NOT about the code in /repo
 
-Theorem C12_failing_sentinel_refuted : ~ C12_failing_sentinel_statement current.
-Proof.
-  intros H. destruct current_refuted_tried as (p & r & s & chunks & _ & _ & _ & _ & T & M & _).
-  rewrite H, M in T. discriminate.
-Qed.
+    Before fixes 28f435d / 380f659 the model [before_fix] (index := end of the read
+    on any match; [tried] latched on the first submit) violated both statements.
+    Kept so that the witnesses stay machine-checked; the same witnesses are in
+    corpus/C12 and now have to PASS on the implementation. *)
+Theorem C12_before_fix_chunk_independent_historical_refuted :
+  exists p r chunks, nonempty p = true /\
+    total (fst (feed_stream before_fix [WResp p r] chunks)) <> occ p (List.concat chunks).
+Proof. exact before_fix_refuted_straddle. Qed.
+
+Theorem C12_before_fix_failing_sentinel_historical_refuted :
+  exists p r s chunks, nonempty p = true /\ nonempty s = true /\
+    occ p (List.concat chunks) = 0 /\
+    total (fst (feed_stream before_fix [WFail p r s] chunks)) = 0 /\
+    snd (feed_stream before_fix [WFail p r s] chunks) = true /\
+    must_raise p s [] false chunks = false /\
+    snd (feed_stream before_fix [WFail p r s] [List.concat chunks]) = false.
+Proof. exact before_fix_refuted_tried. Qed.
